@@ -176,6 +176,7 @@ def _c07_one(args):
     fam = solver_gen_fams[i % len(solver_gen_fams)]
     inst = solver_gen.random_instance(rnd, fam, stable=True)
     inst['free_alpha_unit'] = True           # worm pressure angles too may be given in any unit
+    inst['record_snap'] = True               # the snapshot tables (default output units) of both presentations are compared as well
     for o in inst['ops']:
         if o['op'] == 'run' and 'dt_unit' not in o:
             o['dt_unit'] = 'sec'; o['T_unit'] = 'sec'
@@ -232,8 +233,14 @@ def run_C07(tier, seed):
                              'SI': list(zip(outs(a), lasts(a))), 'reexpressed': list(zip(outs(b), lasts(b))),
                              'ops': [{k: o[k] for k in o if k in ('op', 'dt', 'T', 'dt_unit', 'T_unit', 'ctrl', 'stop', 'outcome', 'first', 'last')} for o in b['ops']]})
             continue
+        def with_snap(ep):
+            # the snapshot table read after the epoch joins the element's series (two samples per column: last instant, between the last two)
+            sn = ep.get('snap') or []
+            ep2 = {k: ep[k] for k in ep if k != 'snap'}
+            ep2['hist'] = [dict(h, **(sn[i] if i < len(sn) else {})) for i, h in enumerate(ep['hist'])]
+            return ep2
         for e in range(len(a['epochs'])):
-            pairs.append({'id': f'{pid}e{e}', 'kind': 'units', 'mode': 'close', 'A': a['epochs'][e], 'B': b['epochs'][e], 'outA': 'ok', 'outB': 'ok',
+            pairs.append({'id': f'{pid}e{e}', 'kind': 'units', 'mode': 'close', 'A': with_snap(a['epochs'][e]), 'B': with_snap(b['epochs'][e]), 'outA': 'ok', 'outB': 'ok',
                           'unjudged': unj})
     pv = validate('Trace_Pair', pairs)
     v.states = tv.states + pv.states
